@@ -181,7 +181,7 @@ class C16(Check):
             bs = rng.randint(1, 5)
             return {"engine": "stub", "space": calsim.gen_space(rng, dims, small=rng.random() < 0.5), "bs": bs,
                     "pool": rng.randint(bs, bs + 25), "pred_seed": rng.randrange(10 ** 6),
-                    "pred_mode": rng.choice(["ties", "ties", "huge", "neg", "normal"]), "passes": rng.choice([0, 0, 2, 5]),
+                    "pred_mode": rng.choice(["ties", "ties", "huge", "neg", "normal", "inf"]), "passes": rng.choice([0, 0, 2, 5]),
                     "ctor_seed": rng.randrange(2 ** 31), "hist_seed": rng.randrange(2 ** 31), "hist_n": rng.randint(1, 12),
                     "loss_mode": rng.choice(["ties", "huge", "inf", "plain"]), "calls": rng.randint(1, 4)}
         if u < 0.7:
